@@ -3,7 +3,7 @@ From Coq Require Import String Ascii.
 From Coq Require Import List Arith NArith ZArith Bool Lia.
 Require Import RV.Model.Base RV.Model.CacheBatch.
 Require Import RV.Proofs.CacheBatchBase RV.Proofs.CacheBatchMulti RV.Proofs.CacheBatchMGet
-               RV.Proofs.CacheBatchRoute RV.Proofs.CacheBatchHelper.
+               RV.Proofs.CacheBatchRoute RV.Proofs.CacheBatchHelper RV.Proofs.CacheBatchAsk.
 Import ListNotations.
 Open Scope nat_scope.
 
@@ -130,22 +130,41 @@ Section PerConn.
     intros w cmds Hc Hsub. apply conn_do_sub; [assumption|]. intros it Hit. now apply Hsub.
   Qed.
 
+  (** the ASK path on connection [c] *)
+  Definition asking_do (c : N) (items : list item) : result (list rres) :=
+    asking_multi_cache (srv_of c) (qerr_of c) optin items.
+
+  (** [r] is what connection [c] answers to [it], directly (through its cache) or after ASKING *)
+  Definition answers_or_asked (c : N) (r : rres) (it : item) : Prop :=
+    answers c r it \/ exists sk, r = ask_one (srv_of c) (qerr_of c) sk (it_argv it).
+
+  Lemma asking_do_sub c cmds :
+    (forall it, In it cmds -> In it batch) ->
+    exists resp, asking_do c cmds = Ok resp /\ Forall2 (answers_or_asked c) resp cmds.
+  Proof.
+    intro Hsub. unfold asking_do.
+    assert (A3 : Forall (fun it => not_tx (it_argv it)) cmds).
+    { apply Forall_forall. intros it Hit. rewrite Forall_forall in Htx. auto. }
+    rewrite asking_multi_cache_spec by assumption. eexists. split; [reflexivity|].
+    generalize (forallb it_static cmds) as sk. intro sk. clear. induction cmds as [|it l IH]; cbn [map]; constructor; [|exact IH].
+    right. exists sk. reflexivity.
+  Qed.
+
   (** cluster.DoMultiCache: any slot -> connection map, any MOVED / ASK redirections, any map iteration
-      orders: a call that returns has at every position an answer to that position's command.  The ASKING
-      path ([askingMultiCache]) is assumed to answer its commands in order. *)
+      orders: a call that returns has at every position an answer to that position's command. *)
   Theorem cluster_positional :
-    forall (conn_of : item -> option N) (asking_do : N -> list item -> result (list rres))
-           (redirect_of : rres -> redirect) (fuel : nat) (orders : list (list N)) (maxredir : nat) (rs : list rres),
-      (forall c cmds, cmds <> [] -> (forall it, In it cmds -> In it batch) ->
-         exists resp, asking_do c cmds = Ok resp /\ Forall2 (answers c) resp cmds) ->
+    forall (conn_of : item -> option N) (redirect_of : rres -> redirect) (fuel : nat) (orders : list (list N))
+           (maxredir : nat) (rs : list rres),
       (forall g, In g (distinct_groups (map (cl_group conn_of) batch) []) ->
                  In g (match orders with o :: _ => o | [] => distinct_groups (map (cl_group conn_of) batch) [] end)) ->
       cluster_do_multi_cache conn_of conn_do asking_do redirect_of fuel orders maxredir batch = Ok (inl rs) ->
-      Forall2 (fun r it => exists c, answers c r it) rs batch.
+      Forall2 (fun r it => exists c, answers_or_asked c r it) rs batch.
   Proof.
-    intros conn_of asking_do redirect_of fuel orders maxredir rs Hask Hcover Hrun.
-    eapply cluster_do_multi_cache_positional with (R := answers) (conn_do := conn_do) (asking_do := asking_do);
-      [|exact Hask|exact Hcover|exact Hrun].
-    intros c cmds Hc Hsub. now apply conn_do_sub.
+    intros conn_of redirect_of fuel orders maxredir rs Hcover Hrun.
+    eapply cluster_do_multi_cache_positional with (R := answers_or_asked) (conn_do := conn_do) (asking_do := asking_do);
+      [| |exact Hcover|exact Hrun].
+    - intros c cmds Hc Hsub. destruct (conn_do_sub c cmds Hc Hsub) as (resp & Hd & Hf). exists resp. split; [assumption|].
+      eapply Forall2_imp; [|exact Hf]. intros r it H. now left.
+    - intros c cmds _ Hsub. now apply asking_do_sub.
   Qed.
 End PerConn.
